@@ -50,160 +50,170 @@ Definition tr (A : Type) : Type := (list event * A)%type.
 Definition is_local (fi : nat) : bool := negb (fi <? length (m_imports m))%nat.
 Definition ev_call (fi : nat) : list event := if is_local fi then [EvCall fi] else [].
 
+(** The three clauses are written as NON-recursive bodies over the recursive callees
+    ([rseq]/[rinstr]/[rinv] = the interpreter with one unit of fuel less); the fixpoint below ties
+    the knot.  (This gives one-step unfolding lemmas by [reflexivity].) *)
+Section Bodies.
+Variable rseq : store -> list val -> list val -> list ainstr -> tr res.
+Variable rinstr : store -> list val -> list val -> ainstr -> tr res.
+Variable rinv : store -> nat -> list val -> tr (sum res (store * option val)).
+
+Definition seq_body (s : store) (locals stack : list val) (is : list ainstr) : tr res :=
+  match is with
+  | [] => ([], RNormal s locals stack)
+  | i :: rest =>
+      match rinstr s locals stack i with
+      | (t1, RNormal s' l' st') => let '(t2, r) := rseq s' l' st' rest in (t1 ++ t2, r)
+      | (t1, r) => (t1, r)
+      end
+  end.
+
+Definition call_body (o : origin) (s : store) (locals : list val) (fi : nat) (args st : list val) : tr res :=
+  match rinv s fi args with
+  | (t, inr (s', r)) =>
+      (ev_work o ++ ev_call fi ++ t, RNormal s' locals (match r with Some v => v :: st | None => st end))
+  | (t, inl r) => (ev_work o ++ ev_call fi ++ t, r)
+  end.
+
+Definition instr_body (s : store) (locals stack : list val) (i : ainstr) : tr res :=
+  match i with
+  | ABlock o bt body =>
+      let '(t, r) := rseq s locals [] body in
+      (ev_work o ++ t,
+       match r with
+       | RNormal s' l' vs => RNormal s' l' (firstn (arity bt) vs ++ stack)
+       | RBr O s' l' vs => RNormal s' l' (firstn (arity bt) vs ++ stack)
+       | RBr (S k) s' l' vs => RBr k s' l' vs
+       | r => r
+       end)
+  | ALoop o bt body =>
+      let '(t, r) := rseq s locals [] body in
+      match r with
+      | RNormal s' l' vs => (ev_work o ++ t, RNormal s' l' (firstn (arity bt) vs ++ stack))
+      | RBr O s' l' _ =>
+          (* the re-entered loop is not a new source instruction: no work event *)
+          let '(t2, r2) := rinstr s' l' stack (ALoop OInj bt body) in (ev_work o ++ t ++ t2, r2)
+      | RBr (S k) s' l' vs => (ev_work o ++ t, RBr k s' l' vs)
+      | r => (ev_work o ++ t, r)
+      end
+  | AIf o bt thn els =>
+      match stack with
+      | VI32 c :: st =>
+          let '(t, r) := rinstr s locals st (ABlock OInj bt (if c =? 0 then els else thn)) in
+          (ev_work o ++ t, r)
+      | _ => (ev_work o, RStuck)
+      end
+  | ABasic o (BBr l) => (ev_work o, RBr l s locals stack)
+  | ABasic o (BBrIf l) =>
+      match stack with
+      | VI32 c :: st => if c =? 0 then (ev_work o, RNormal s locals st)
+                        else (ev_work o ++ ev_taken o, RBr l s locals st)
+      | _ => (ev_work o, RStuck)
+      end
+  | ABasic o (BBrTable ls d) =>
+      match stack with
+      | VI32 c :: st =>
+          (ev_work o,
+           RBr (if c <? Z.of_nat (length ls)
+                then match nth_opt ls (Z.to_nat c) with Some l => l | None => d end
+                else d) s locals st)
+      | _ => (ev_work o, RStuck)
+      end
+  | ABasic o BReturn => (ev_work o, RReturn s stack)
+  | ABasic o (BCall fi) =>
+      match afunc_type fi with
+      | Some ft =>
+          match take_args (length (ft_params ft)) stack [] with
+          | Some (args, st) => call_body o s locals fi args st
+          | None => (ev_work o, RStuck)
+          end
+      | None => (ev_work o, RStuck)
+      end
+  | ABasic o (BCallIndirect ti) =>
+      match stack, nth_opt (m_types m) ti with
+      | VI32 c :: st0, Some ft =>
+          match (if c <? Z.of_nat (length (s_table s)) then nth_opt (s_table s) (Z.to_nat c) else None) with
+          | Some (Some fi) =>
+              match afunc_type fi with
+              | Some ft' =>
+                  if functype_eqb ft ft' then
+                    match take_args (length (ft_params ft)) st0 [] with
+                    | Some (args, st) => call_body o s locals fi args st
+                    | None => (ev_work o, RStuck)
+                    end
+                  else (ev_work o ++ ev_call fi, RTrap)   (* machine.rs: track_call precedes the type check *)
+              | None => (ev_work o, RStuck)
+              end
+          | _ => (ev_work o, RTrap)
+          end
+      | _, _ => (ev_work o, RStuck)
+      end
+  | ABasic o b =>
+      (* a tick is recorded BEFORE the work its annotation stands for (the entry tick of a
+         metered function carries the function's [invoke_after] work) *)
+      (match b with BTick n => EvTick n :: ev_work o | _ => ev_work o end,
+       match exec_simple page_cap b s locals stack with
+       | inr (s', l', st') => RNormal s' l' st'
+       | inl true => RTrap
+       | inl false => RStuck
+       end)
+  end.
+
+Definition fin_result (ft : functype) (s' : store) (vs : list val) : tr (sum res (store * option val)) :=
+  match ft_result ft with
+  | None => ([EvRet], inr (s', None))
+  | Some _ => match vs with v :: _ => ([EvRet], inr (s', Some v)) | [] => ([], inl RStuck) end
+  end.
+
+Definition inv_body (s : store) (fi : nat) (args : list val) : tr (sum res (store * option val)) :=
+  let ni := length (m_imports m) in
+  if (fi <? ni)%nat then
+    match afunc_type fi with
+    | Some ft =>
+        ([EvHost fi args],
+         match host fi args (s_mem s) with
+         | HostOk mm r => inr (set_mem s mm, r)
+         | HostTrap => inl RTrap
+         end)
+    | None => ([], inl RStuck)
+    end
+  else
+    match nth_opt afs (fi - ni) with
+    | Some fn =>
+        match nth_opt (m_types m) (af_type fn) with
+        | Some ft =>
+            let locals := args ++ map zero_of (af_locals fn) in
+            let '(t, r) := rseq s locals [] (af_body fn) in
+            let '(t2, r2) :=
+              match r with
+              | RNormal s' _ vs => fin_result ft s' vs
+              | RBr O s' _ vs => fin_result ft s' vs
+              | RReturn s' vs => fin_result ft s' vs
+              | RBr (S _) _ _ _ => ([], inl RStuck)
+              | r => ([], inl r)
+              end in
+            (EvWork (af_entry fn) :: t ++ t2, r2)
+        | None => ([], inl RStuck)
+        end
+    | None => ([], inl RStuck)
+    end.
+End Bodies.
+
 Fixpoint texec_seq (fuel : nat) (s : store) (locals stack : list val) (is : list ainstr) {struct fuel} : tr res :=
   match fuel with
   | O => ([], RFuel)
-  | S f =>
-      match is with
-      | [] => ([], RNormal s locals stack)
-      | i :: rest =>
-          match texec_instr f s locals stack i with
-          | (t1, RNormal s' l' st') => let '(t2, r) := texec_seq f s' l' st' rest in (t1 ++ t2, r)
-          | (t1, r) => (t1, r)
-          end
-      end
+  | S f => seq_body (texec_seq f) (texec_instr f) s locals stack is
   end
-
 with texec_instr (fuel : nat) (s : store) (locals stack : list val) (i : ainstr) {struct fuel} : tr res :=
   match fuel with
   | O => ([], RFuel)
-  | S f =>
-      match i with
-      | ABlock o bt body =>
-          let '(t, r) := texec_seq f s locals [] body in
-          (ev_work o ++ t,
-           match r with
-           | RNormal s' l' vs => RNormal s' l' (firstn (arity bt) vs ++ stack)
-           | RBr O s' l' vs => RNormal s' l' (firstn (arity bt) vs ++ stack)
-           | RBr (S k) s' l' vs => RBr k s' l' vs
-           | r => r
-           end)
-      | ALoop o bt body =>
-          let '(t, r) := texec_seq f s locals [] body in
-          match r with
-          | RNormal s' l' vs => (ev_work o ++ t, RNormal s' l' (firstn (arity bt) vs ++ stack))
-          | RBr O s' l' _ =>
-              (* the re-entered loop is not a new source instruction: no work event *)
-              let '(t2, r2) := texec_instr f s' l' stack (ALoop OInj bt body) in (ev_work o ++ t ++ t2, r2)
-          | RBr (S k) s' l' vs => (ev_work o ++ t, RBr k s' l' vs)
-          | r => (ev_work o ++ t, r)
-          end
-      | AIf o bt thn els =>
-          match stack with
-          | VI32 c :: st =>
-              let '(t, r) := texec_instr f s locals st (ABlock OInj bt (if c =? 0 then els else thn)) in
-              (ev_work o ++ t, r)
-          | _ => (ev_work o, RStuck)
-          end
-      | ABasic o (BBr l) => (ev_work o, RBr l s locals stack)
-      | ABasic o (BBrIf l) =>
-          match stack with
-          | VI32 c :: st => if c =? 0 then (ev_work o, RNormal s locals st)
-                            else (ev_work o ++ ev_taken o, RBr l s locals st)
-          | _ => (ev_work o, RStuck)
-          end
-      | ABasic o (BBrTable ls d) =>
-          match stack with
-          | VI32 c :: st =>
-              (ev_work o,
-               RBr (if c <? Z.of_nat (length ls)
-                    then match nth_opt ls (Z.to_nat c) with Some l => l | None => d end
-                    else d) s locals st)
-          | _ => (ev_work o, RStuck)
-          end
-      | ABasic o BReturn => (ev_work o, RReturn s stack)
-      | ABasic o (BCall fi) =>
-          match afunc_type fi with
-          | Some ft =>
-              match take_args (length (ft_params ft)) stack [] with
-              | Some (args, st) =>
-                  match tinvoke f s fi args with
-                  | (t, inr (s', r)) =>
-                      (ev_work o ++ ev_call fi ++ t, RNormal s' locals (match r with Some v => v :: st | None => st end))
-                  | (t, inl r) => (ev_work o ++ ev_call fi ++ t, r)
-                  end
-              | None => (ev_work o, RStuck)
-              end
-          | None => (ev_work o, RStuck)
-          end
-      | ABasic o (BCallIndirect ti) =>
-          match stack, nth_opt (m_types m) ti with
-          | VI32 c :: st0, Some ft =>
-              match (if c <? Z.of_nat (length (s_table s)) then nth_opt (s_table s) (Z.to_nat c) else None) with
-              | Some (Some fi) =>
-                  match afunc_type fi with
-                  | Some ft' =>
-                      if functype_eqb ft ft' then
-                        match take_args (length (ft_params ft)) st0 [] with
-                        | Some (args, st) =>
-                            match tinvoke f s fi args with
-                            | (t, inr (s', r)) =>
-                                (ev_work o ++ ev_call fi ++ t,
-                                 RNormal s' locals (match r with Some v => v :: st | None => st end))
-                            | (t, inl r) => (ev_work o ++ ev_call fi ++ t, r)
-                            end
-                        | None => (ev_work o, RStuck)
-                        end
-                      else (ev_work o, RTrap)
-                  | None => (ev_work o, RStuck)
-                  end
-              | _ => (ev_work o, RTrap)
-              end
-          | _, _ => (ev_work o, RStuck)
-          end
-      | ABasic o b =>
-          (* a tick is recorded BEFORE the work its annotation stands for (the entry tick of a
-             metered function carries the function's [invoke_after] work) *)
-          (match b with BTick n => EvTick n :: ev_work o | _ => ev_work o end,
-           match exec_simple page_cap b s locals stack with
-           | inr (s', l', st') => RNormal s' l' st'
-           | inl true => RTrap
-           | inl false => RStuck
-           end)
-      end
+  | S f => instr_body (texec_seq f) (texec_instr f) (tinvoke f) s locals stack i
   end
-
 with tinvoke (fuel : nat) (s : store) (fi : nat) (args : list val) {struct fuel}
   : tr (sum res (store * option val)) :=
   match fuel with
   | O => ([], inl RFuel)
-  | S f =>
-      let ni := length (m_imports m) in
-      if (fi <? ni)%nat then
-        match afunc_type fi with
-        | Some ft =>
-            ([EvHost fi args],
-             match host fi args (s_mem s) with
-             | HostOk mm r => inr (set_mem s mm, r)
-             | HostTrap => inl RTrap
-             end)
-        | None => ([], inl RStuck)
-        end
-      else
-        match nth_opt afs (fi - ni) with
-        | Some fn =>
-            match nth_opt (m_types m) (af_type fn) with
-            | Some ft =>
-                let locals := args ++ map zero_of (af_locals fn) in
-                let fin (s' : store) (vs : list val) : list event * sum res (store * option val) :=
-                  match ft_result ft with
-                  | None => ([EvRet], inr (s', None))
-                  | Some _ => match vs with v :: _ => ([EvRet], inr (s', Some v)) | [] => ([], inl RStuck) end
-                  end in
-                let '(t, r) := texec_seq f s locals [] (af_body fn) in
-                let '(t2, r2) :=
-                  match r with
-                  | RNormal s' _ vs => fin s' vs
-                  | RBr O s' _ vs => fin s' vs
-                  | RReturn s' vs => fin s' vs
-                  | RBr (S _) _ _ _ => ([], inl RStuck)
-                  | r => ([], inl r)
-                  end in
-                (EvWork (af_entry fn) :: t ++ t2, r2)
-            | None => ([], inl RStuck)
-            end
-        | None => ([], inl RStuck)
-        end
+  | S f => inv_body (texec_seq f) s fi args
   end.
 
 (** instantiate ([Sem.instantiate], which reads only the non-code parts of [m]) and invoke *)
